@@ -85,6 +85,16 @@ func (c c15Case) String() string {
 
 var errTail = errors.New("injected stream failure")
 
+// c15NetErr: a net.Error as a stream reports it for an expired deadline or a condition it calls temporary.
+type c15NetErr struct {
+	msg                string
+	timeout, temporary bool
+}
+
+func (e *c15NetErr) Error() string   { return e.msg }
+func (e *c15NetErr) Timeout() bool   { return e.timeout }
+func (e *c15NetErr) Temporary() bool { return e.temporary }
+
 // hdrBytesOfLast: how many bytes of the last (incomplete) frame header the stream supplied.
 func hdrBytesOfLast(stream []byte, frames []scanFrame) int {
 	off := 0
@@ -634,7 +644,19 @@ func TestC15TransientFault(t *testing.T) {
 		pipe.frag = frag
 		pipe.Write(stream)
 		pipe.CloseWrite()
-		pipe.failReadAt, pipe.failReadE, pipe.failReadTransient = int64(at), errTail, true
+		// the failure is a plain error, an expired read deadline (a net.Error that says Timeout) or one that calls
+		// itself temporary: none of them makes a half-parsed stream readable again
+		var ferr error = errTail
+		faultCls := "fault.plain"
+		switch rapid.IntRange(0, 2).Draw(rt, "faultKind") {
+		case 1:
+			ferr = &c15NetErr{msg: "i/o timeout (read deadline)", timeout: true}
+			faultCls = "fault.timeout"
+		case 2:
+			ferr = &c15NetErr{msg: "temporary failure", temporary: true}
+			faultCls = "fault.temporary"
+		}
+		pipe.failReadAt, pipe.failReadE, pipe.failReadTransient = int64(at), ferr, true
 		rc := webtrans.NewConn(nil, &memWTStream{in: pipe, out: newHalfPipe()}, server, rbs, 0, nil, nil, nil)
 		var firstErr error
 		var cur io.Reader
@@ -682,7 +704,7 @@ func TestC15TransientFault(t *testing.T) {
 				inside = true
 			}
 		}
-		classes := []string{fmt.Sprintf("frames-before-the-failure=%d", min(complete, 3))}
+		classes := []string{fmt.Sprintf("frames-before-the-failure=%d", min(complete, 3)), faultCls}
 		if inside {
 			classes = append(classes, "fault-inside-a-frame")
 		}
@@ -727,7 +749,7 @@ func TestC15TransientFault(t *testing.T) {
 			rt.Fatalf("stream of %d frames (%d bytes), transient read failure at byte %d, read size %d, fragmentation %v: %s", n, len(stream), at, readSize, frag, fail)
 		}
 	})
-	col.RequireClasses(t, "read-failed", "fault-inside-a-frame")
+	col.RequireClasses(t, "read-failed", "fault-inside-a-frame", "fault.timeout", "fault.temporary")
 }
 
 // TestC15TransportReadLimit: the read limit where the engine configures it. A session on the engine's WebTransport
